@@ -31,6 +31,21 @@ mod repl;
 mod scanner;
 mod vm;
 
+/// Like println!/eprintln!, but a failed write (closed pipe, full device) is
+/// ignored instead of panicking the interpreter
+macro_rules! outln {
+    ($($arg:tt)*) => {{
+        use std::io::Write;
+        let _ = writeln!(io::stdout(), $($arg)*);
+    }};
+}
+macro_rules! errln {
+    ($($arg:tt)*) => {{
+        use std::io::Write;
+        let _ = writeln!(io::stderr(), $($arg)*);
+    }};
+}
+
 const HISTORY_LINES: usize = 8;
 const PKG_VERSION: &str = env!("CARGO_PKG_VERSION");
 const PKG_DESC: &str = env!("CARGO_PKG_DESCRIPTION");
@@ -54,8 +69,8 @@ fn main() {
 
 /// Function to run the REPL
 pub fn run_prompt(args: Vec<String>) {
-    println!("{} v{}", PKG_DESC, PKG_VERSION);
-    println!("Type quit to quit REPL");
+    outln!("{} v{}", PKG_DESC, PKG_VERSION);
+    outln!("Type quit to quit REPL");
 
     let mut cmds = vec!["quit".to_string()];
 
@@ -97,7 +112,7 @@ pub fn run_prompt(args: Vec<String>) {
                 let mut copy = Program::default();
                 copy.statements = program.statements.clone();
                 if let Err(e) = dry_run.compile(copy) {
-                    eprintln!("{}", e);
+                    errln!("{}", e);
                     continue;
                 }
                 // Then compile and run statement by statement, so that a runtime
@@ -112,7 +127,7 @@ pub fn run_prompt(args: Vec<String>) {
                     let mut compiler = Compiler::new_with_state(symtab, constants);
                     if let Err(e) = compiler.compile(single) {
                         // cannot happen after the dry run; keep the state consistent anyway
-                        eprintln!("{}", e);
+                        errln!("{}", e);
                         symtab = compiler.symtab;
                         constants = compiler.constants;
                         break;
@@ -124,7 +139,7 @@ pub fn run_prompt(args: Vec<String>) {
                     symtab = compiler.symtab;
                     constants = compiler.constants;
                     if let Err(err) = err {
-                        eprintln!("{}", err);
+                        errln!("{}", err);
                         globals = vm.globals;
                         symtab = before;
                         break;
@@ -133,14 +148,14 @@ pub fn run_prompt(args: Vec<String>) {
                     let stack_elem = vm.last_popped();
                     // print the value of the final expression statement if it is not null
                     if echo && i + 1 == count && !matches!(stack_elem.as_ref(), Object::Null) {
-                        println!("{}", stack_elem);
+                        outln!("{}", stack_elem);
                     }
                     globals = vm.globals;
                 }
             }
         }
     }
-    println!("\nExiting...");
+    outln!("\nExiting...");
 }
 
 /// Function to run a script file
@@ -150,7 +165,7 @@ pub fn run_prompt(args: Vec<String>) {
 pub fn run_file(path: &str, args: Vec<String>, skip_pcap: bool) {
     let buf = fs::read_to_string(path);
     if buf.is_err() {
-        eprintln!("Failed to read file {}", path);
+        errln!("Failed to read file {}", path);
         return;
     }
     let buf = buf.unwrap();
@@ -178,7 +193,7 @@ pub fn run_buf(buf: String, args: Vec<String>, cmd_mode: bool, skip_pcap: bool) 
     let echo = ends_with_expr_stmt(&program);
     let mut compiler = Compiler::new();
     if let Err(e) = compiler.compile(program) {
-        eprintln!("{}", e);
+        errln!("{}", e);
         return;
     }
     let bytecode = compiler.bytecode();
@@ -193,7 +208,7 @@ pub fn run_buf(buf: String, args: Vec<String>, cmd_mode: bool, skip_pcap: bool) 
     let err = vm.run();
     let failed = err.is_err();
     if let Err(err) = err {
-        eprintln!("{}", err);
+        errln!("{}", err);
     }
 
     if cmd_mode && !filter_mode && echo && !failed {
@@ -201,7 +216,7 @@ pub fn run_buf(buf: String, args: Vec<String>, cmd_mode: bool, skip_pcap: bool) 
         let stack_elem = vm.last_popped();
         // print the value of the final expression statement if it is not null
         if !matches!(stack_elem.as_ref(), Object::Null) {
-            println!("{}", stack_elem);
+            outln!("{}", stack_elem);
         }
     }
 
@@ -226,7 +241,7 @@ fn run_filters(
     let pcap_in = match Pcap::from_file(Rc::new(FileHandle::Stdin)) {
         Ok(pcap) => pcap,
         Err(err) => {
-            eprintln!("{}", err);
+            errln!("{}", err);
             return;
         }
     };
@@ -238,7 +253,7 @@ fn run_filters(
         let out = match Pcap::new_with_header(Rc::new(FileHandle::Stdout), header) {
             Ok(pcap) => pcap,
             Err(err) => {
-                eprintln!("{}", err);
+                errln!("{}", err);
                 return;
             }
         };
@@ -256,11 +271,11 @@ fn run_filters(
                 // Run filter statements on the packet
                 for filter in &filters {
                     if let Err(err) = vm.push_filter_frame(filter) {
-                        eprintln!("{}", err);
+                        errln!("{}", err);
                         break 'out;
                     }
                     if let Err(err) = vm.run() {
-                        eprintln!("{}", err);
+                        errln!("{}", err);
                         break 'out;
                     }
                     // If the result of the filter is true, then write the packet to stdout
@@ -270,13 +285,13 @@ fn run_filters(
                         Ok(true) => {
                             if let Some(out) = &pcap_out {
                                 if let Err(err) = out.write_all(pkt.clone()) {
-                                    eprintln!("{}", err);
+                                    errln!("{}", err);
                                     break 'out;
                                 }
                             }
                         }
                         Err(err) => {
-                            eprintln!("{}", err);
+                            errln!("{}", err);
                             break;
                         }
                         Ok(false) => {}
@@ -286,7 +301,7 @@ fn run_filters(
             }
             Err(err) => {
                 if err.kind() != io::ErrorKind::UnexpectedEof {
-                    eprintln!("{}", err);
+                    errln!("{}", err);
                 }
                 break;
             }
@@ -298,11 +313,11 @@ fn run_filters(
     // Call the end filter
     if let Some(filter) = filter_end {
         if let Err(err) = vm.push_filter_frame(&filter) {
-            eprintln!("{}", err);
+            errln!("{}", err);
             return;
         }
         if let Err(err) = vm.run() {
-            eprintln!("{}", err);
+            errln!("{}", err);
             return;
         }
         // There is nothing to write to stdout for the end filter
@@ -310,7 +325,7 @@ fn run_filters(
         match vm.pop_filter_frame() {
             Ok(_) => {}
             Err(err) => {
-                eprintln!("{}", err);
+                errln!("{}", err);
             }
         }
     }
@@ -335,7 +350,7 @@ fn parse_program(source: &str) -> Option<Program> {
 
 fn print_parse_errors(parser: &parser::Parser) -> bool {
     if parser.print_errors() {
-        eprintln!("{} parse errors", parser.parse_errors().len());
+        errln!("{} parse errors", parser.parse_errors().len());
         true
     } else {
         false
